@@ -167,7 +167,7 @@ func (o *cmC04) nontrivial(m *chainMachine) bool                 { return o.maxD
 var cmLifecycleProfile = cmProfile{weights: map[string]int{
 	"deployCreate": 4, "marketRound": 5, "advance": 5, "provider": 1, "audit": 1,
 	"leaseClose": 2, "bidClose": 3, "deployClose": 2, "leaseWithdraw": 3, "groupStart": 4, "groupPause": 3, "groupClose": 2,
-	"cert": 0, "wrongSigner": 1, "deployDeposit": 1, "withdrawThenClose": 1, "bidCreate": 2, "leaseCreate": 2,
+	"cert": 0, "wrongSigner": 1, "deployDeposit": 1, "withdrawThenClose": 1, "bidCreate": 2, "leaseCreate": 2, "exhaustExactly": 2,
 }}
 
 func TestVerif_C04(t *testing.T) {
@@ -465,7 +465,7 @@ func (o *cmC02) nontrivial(m *chainMachine) bool { return o.concurrent || o.over
 var cmMeterProfile = cmProfile{weights: map[string]int{
 	"deployCreate": 3, "marketRound": 6, "advance": 7, "provider": 1, "audit": 1,
 	"leaseClose": 2, "bidClose": 2, "deployClose": 1, "leaseWithdraw": 5, "groupStart": 2, "groupPause": 1, "groupClose": 1,
-	"cert": 0, "wrongSigner": 0, "deployDeposit": 3, "withdrawThenClose": 1,
+	"cert": 0, "wrongSigner": 0, "deployDeposit": 3, "withdrawThenClose": 1, "exhaustExactly": 3,
 }}
 
 func TestVerif_C02_App(t *testing.T) {
